@@ -58,6 +58,19 @@ void AssembleAction::onFinal()
 // SerialAssembleAction
 //////////////////////////
 
+SerialAssembleAction::~SerialAssembleAction()
+{
+    cancelChildFinishReplay();
+}
+
+void SerialAssembleAction::cancelChildFinishReplay()
+{
+    if (child_finish_run_id_ != 0) {
+        loop_.cancel(child_finish_run_id_);
+        child_finish_run_id_ = 0;
+    }
+}
+
 bool SerialAssembleAction::startThisAction(Action *action)
 {
     if (action->start()) {
@@ -111,6 +124,9 @@ void SerialAssembleAction::onLastChildFinished(bool is_succ, const Reason &reaso
 
 void SerialAssembleAction::onPause()
 {
+    //! 如果重放任务还没执行就又被暂停了，则撤消它。缓存的finish事件还在，等下次恢复时再重放
+    cancelChildFinishReplay();
+
     if (curr_action_ != nullptr)
         curr_action_->pause();
 
@@ -125,7 +141,16 @@ void SerialAssembleAction::onResume()
         curr_action_->resume();
 
     } else if (child_finish_func_) {
-        loop_.runNext(std::move(child_finish_func_));
+        //! 记下任务号，以便在重放之前被暂停、停止、重置或析构时撤消
+        child_finish_run_id_ = loop_.runNext(
+            [this] {
+                child_finish_run_id_ = 0;
+                ChildFinishFunc func;
+                func.swap(child_finish_func_);
+                if (func)
+                    func();
+            },
+            "SerialAssembleAction::onResume, replay child finish");
 
     } else {
         LogWarn("%d:%s[%s] can't resume", id(), type().c_str(), label().c_str());
@@ -135,6 +160,7 @@ void SerialAssembleAction::onResume()
 void SerialAssembleAction::onStop()
 {
     stopCurrAction();
+    cancelChildFinishReplay();
     child_finish_func_ = nullptr;
 
     AssembleAction::onStop();
@@ -144,6 +170,7 @@ void SerialAssembleAction::onFinished(bool is_succ, const Reason &why, const Tra
 {
     //! 有可能不是子动作自然结束产生的finish（如超时），此时要停止还在运行的子动作
     stopCurrAction();
+    cancelChildFinishReplay();
     child_finish_func_ = nullptr;
 
     AssembleAction::onFinished(is_succ, why, trace);
@@ -152,6 +179,7 @@ void SerialAssembleAction::onFinished(bool is_succ, const Reason &why, const Tra
 void SerialAssembleAction::onReset()
 {
     curr_action_ = nullptr;
+    cancelChildFinishReplay();
     child_finish_func_ = nullptr;
 
     AssembleAction::onReset();
